@@ -51,6 +51,8 @@ def check_C06(rep, known):
 
 def check_C05(rep, known):
     scen_job(rep, 'ScenShoot', 'C05', [r'C05\.', r'build', r'varmap'], known)
+    # the direct-collocation scenarios (C02 family) carry integral objectives: collocation quadrature
+    scen_job(rep, 'ScenShoot', 'C02', [r'C05\.', r'build', r'varmap'], known)
 
 
 
